@@ -23,6 +23,7 @@ LEVEL_TEXT = (
     "folder name. Decided for all line-ups and replacement sequences because none of the rules depends on values."
     " Every store of the sampler line-up takes a private copy (a caller's list mutated later would renumber labels), and the scheduler pickle is written before the labels that refer to it."
     ' Included: one label per recorded sample needs sample() to return exactly batch_size rows (C12 shape rules), and the results table is rewritten whole on every save, never appended to (C04-R4b).'
+    ' Included: the commit-region rule of C02 (a batch is labelled together with its samples, after the user code ran) and the field-plumbing rule of C04 restricted to the per-sample records (after a restore label i still belongs to sample i).'
 )
 TECHNIQUE = "guarded-store / monotonicity rule on the id table + persisted-domain membership + pickle channel typing across writer and reader"
 
